@@ -163,7 +163,7 @@ def _step(b: Builder, h: str, profile, H: int, force_mapped: bool = False) -> st
     mapped = ["linear_pair", "gelu", "silu", "softmax", "dropout", "layer_norm", "matmul", "sdpa", "linear_one", "gate", "gate"]
     if "conv1d" in forms:
         mapped.append("conv1d")
-    unmapped = ["tanh", "relu", "mul_scalar", "neg", "reshape_roundtrip", "slice_cat", "add_scalar", "mul_tensor", "plain_add"]
+    unmapped = ["tanh", "relu", "mul_scalar", "neg", "reshape_roundtrip", "slice_cat", "add_scalar", "mul_tensor", "plain_add", "self_add", "sibling_add"]
     if profile.get("extras"):
         unmapped += ["rotate_half", "where_mask", "gather_argmax", "stack_mean"]
     if profile.get("quant_focus"):
@@ -240,6 +240,13 @@ def _step(b: Builder, h: str, profile, H: int, force_mapped: bool = False) -> st
     if choice == "plain_add":
         w = b.param([D]) if rng.random() < 0.5 else b.param([B, S, D])
         return b.op("add", [h, w], [B, S, D])
+    if choice == "self_add":
+        return b.op("add", [h, h], [B, S, D])  # x + x: neither operand is computed from the other -> a plain add
+    if choice == "sibling_add":
+        # two tensors computed from the same source, neither from the other: a plain add, not a residual one
+        a_ = b.op("tanh", [h], [B, S, D])
+        c_ = b.op("relu", [h], [B, S, D])
+        return b.op("add", [a_, c_], [B, S, D])
     if choice == "reshape_roundtrip":
         t = b.op("reshape", [h], [B * S, D], to=[B * S, D])
         return b.op("reshape", [t], [B, S, D], to=[B, S, D])
